@@ -89,8 +89,10 @@ def run_history(case):
     try:
         tree = case["tree"]
         root = alpha.materialize(tree, os.path.join(sbx, "p"))
-        os.makedirs(os.path.join(sbx, "o"))
-        out = os.path.join(sbx, "o", "m.torrent")
+        from .core import odd_meta
+        mdir, mname = odd_meta(case)
+        os.makedirs(os.path.join(sbx, mdir))
+        out = os.path.join(sbx, mdir, mname)
         opts = {}
         for f in case["present"]:
             v = concrete(0, f, "s1")
